@@ -278,6 +278,14 @@ add(["C06", "C08"], "c06_vec_u16_hostile_len", "candid", "de_fast",
     "vec nat16 with a symbolic (possibly huge / padded) LEB128 length prefix in 10 symbolic bytes, non-allocating visitor",
     "no panic / arithmetic overflow for any length; Ok exactly when length*2 fits the remaining input, then count and "
     "consumption match; otherwise Err", quick=False, est_s=400, cap_s=2400, cbmc_args=MEMCMP)
+LENREAD_WHAT = ("the kernel of every length-prefixed value (read_len; add_cost(len+1); borrow_bytes(len)) on an arbitrary buffer and start "
+                "offset: no panic / overflow for any prefix (padded, >= 2^63, > 2^64); Ok => slice is exactly the payload the "
+                "prefix announces, inside the input, consumption exact, payload charged; a value that fits (prefix within 9 "
+                "bytes, no quota) => Ok; unterminated/oversized => Err")
+add("C06", "c06_len_prefixed_read_eq12", "candid", "de_fast",
+    "all 12-byte buffers x any start offset 0..=12 x symbolic quotas", LENREAD_WHAT, quick=True, est_s=60, cbmc_args=MEMCMP)
+add("C06", "c06_len_prefixed_read_eq16", "candid", "de_fast",
+    "all 16-byte buffers x any start offset 0..=16 x symbolic quotas", LENREAD_WHAT, quick=False, est_s=120, cbmc_args=MEMCMP)
 add(["C06", "C07"], "c06_vec_null_bomb", "candid", "de_fast",
     "vec null with a symbolic length prefix (10 symbolic bytes), decoding quota symbolic <= 20",
     "zero-sized elements are not free: a successful decode materialised at most quota elements; space bombs are stopped",
